@@ -394,38 +394,50 @@ def goIsSpace (c : Char) : Bool :=
 def trimSpaceStr (s : String) : String :=
   String.ofList ((s.toList.dropWhile goIsSpace).reverse.dropWhile goIsSpace).reverse
 
+/-- one record of the `__attrs` argument list: (name, boolean value if any, string value, mustEscape) -/
+abbrev AttrRec := String × Option Bool × String × Bool
+
+/-- collecting one record (the loop body of `__attrs`): a new name is appended; a known name gets the new value - the last one
+    wins, except for `class`, whose values accumulate (identical records are skipped) -/
+def attOf (r : AttrRec) : TmpAttr :=
+  let (name, b, v, esc) := r
+  let val := match b with
+    | some _ => if esc then name else "\"" ++ name ++ "\""
+    | none => v
+  (esc, val, b)
+
+def attrStep (acc : List (String × List TmpAttr)) (r : AttrRec) : List (String × List TmpAttr) :=
+  let name := r.1
+  let att := attOf r
+  match acc.find? (·.1 == name) with
+  | some (_, olds) =>
+    if name == "class" then
+      -- `s == att` compares the *bool pointers*: two records with a BoolVal are never identical
+      if olds.any (fun o => o == att && att.2.2.isNone) then acc
+      else acc.map fun e => if e.1 == name then (name, olds ++ [att]) else e
+    else acc.map fun e => if e.1 == name then (name, [att]) else e
+  | none => acc ++ [(name, [att])]
+
+def attrCollect (recs : List AttrRec) : List (String × List TmpAttr) := recs.foldl attrStep []
+
+/-- one collected attribute, printed -/
+def attrRenderOne (name : String) (vals : List TmpAttr) : String :=
+  let isClass := name == "class"
+  -- a false boolean omits the whole attribute, unless it is a class entry (then only that entry)
+  if !isClass && vals.any (fun v => v.2.2 == some false) then "" else
+  let vals := if isClass then vals.filter (fun v => v.2.2 != some false) else vals
+  let parts := vals.map fun (esc, val, _) =>
+    if esc then stdHtmlEscape val
+    else if val.toList.head? == some '"' then String.ofList ((val.toList.drop 1).dropLast) else ""
+  -- `if len(tmp) > 0 { tmp += " " }` before each value
+  let tmp := parts.foldl (fun acc p => (if acc.length > 0 then acc ++ " " else acc) ++ p) ""
+  let tmp := if attrsTrimAll || isClass then trimSpaceStr tmp else tmp
+  if tmp == "" && isClass then "" else " " ++ name ++ "=\"" ++ tmp ++ "\""
+
 /-- `__attrs` (runtime.go): first-occurrence order of names; the last value wins except for `class`, whose values accumulate
     (identical records are skipped); false/nil omit the attribute (for class: that entry); values are escaped -/
-def renderAttrs (recs : List (String × Option Bool × String × Bool)) : String :=
-  -- collect
-  let step (acc : List (String × List TmpAttr)) (r : String × Option Bool × String × Bool) : List (String × List TmpAttr) :=
-    let (name, b, v, esc) := r
-    let val := match b with
-      | some _ => if esc then name else "\"" ++ name ++ "\""
-      | none => v
-    let att : TmpAttr := (esc, val, b)
-    match acc.find? (·.1 == name) with
-    | some (_, olds) =>
-      if name == "class" then
-        -- `s == att` compares the *bool pointers*: two records with a BoolVal are never identical
-        if olds.any (fun o => o == att && att.2.2.isNone) then acc
-        else acc.map fun e => if e.1 == name then (name, olds ++ [att]) else e
-      else acc.map fun e => if e.1 == name then (name, [att]) else e
-    | none => acc ++ [(name, [att])]
-  let coll := recs.foldl step []
-  let renderOne (name : String) (vals : List TmpAttr) : String :=
-    let isClass := name == "class"
-    -- a false boolean omits the whole attribute, unless it is a class entry (then only that entry)
-    if !isClass && vals.any (fun v => v.2.2 == some false) then "" else
-    let vals := if isClass then vals.filter (fun v => v.2.2 != some false) else vals
-    let parts := vals.map fun (esc, val, _) =>
-      if esc then stdHtmlEscape val
-      else if val.toList.head? == some '"' then String.ofList ((val.toList.drop 1).dropLast) else ""
-    -- `if len(tmp) > 0 { tmp += " " }` before each value
-    let tmp := parts.foldl (fun acc p => (if acc.length > 0 then acc ++ " " else acc) ++ p) ""
-    let tmp := if attrsTrimAll || isClass then trimSpaceStr tmp else tmp
-    if tmp == "" && isClass then "" else " " ++ name ++ "=\"" ++ tmp ++ "\""
-  String.join (coll.map fun (n, vs) => renderOne n vs)
+def renderAttrs (recs : List AttrRec) : String :=
+  String.join ((attrCollect recs).map fun (n, vs) => attrRenderOne n vs)
 
 /-- apply a function-map entry to evaluated arguments; results already passed through `convert` -/
 def callBuiltin (name : String) (args : List Val) : M Val := do
